@@ -175,8 +175,22 @@ func c10Pay(c *fw.Ctx, i int) {
 	}
 	p := &codecs.H264Payloader{DisableStapA: !stapA}
 	var payloads [][]byte
+	var mtuOf []int // the MTU of the call that returned each payload
 	var callDesc []string
-	for _, cl := range calls {
+	baseMTU := mtu
+	varyMTU := len(calls) >= 2 && r.Chance(1, 4)
+	for ci, cl := range calls {
+		if varyMTU {
+			// the MTU is an argument of every call (path MTU changes): parameter sets handed in under one MTU are sent under another
+			mtu = []int{baseMTU, baseMTU + r.Pick(1, 7, 40), baseMTU/2 + 3, baseMTU - r.Pick(1, 2, 5), 2 * baseMTU}[(ci+r.Intn(5))%5]
+			if mtu < 3 {
+				mtu = 3
+			}
+			if mtu > 65535 {
+				mtu = 65535
+			}
+			c.Count("calls_with_their_own_mtu", 1)
+		}
 		in, sc := gen.AnnexB(r, cl.units)
 		var out [][]byte
 		if pv, st := fw.Guard(func() { out = p.Payload(uint16(mtu), in) }); pv != nil {
@@ -185,7 +199,13 @@ func c10Pay(c *fw.Ctx, i int) {
 		}
 		c.Evals(1)
 		payloads = append(payloads, out...)
+		for range out {
+			mtuOf = append(mtuOf, mtu)
+		}
 		d := ""
+		if varyMTU {
+			d = fmt.Sprintf("mtu=%d:", mtu)
+		}
 		for k, u := range cl.units {
 			d += fmt.Sprintf("[sc%d t%d %dB]", sc[k], u[0]&0x1F, len(u))
 		}
@@ -218,11 +238,12 @@ func c10Pay(c *fw.Ctx, i int) {
 		c.Sample(map[string]any{"mtu": mtu, "stap_a": stapA, "avc": avc, "calls": callDesc, "payload_count": len(payloads)})
 	}
 	for k, pl := range payloads {
-		if len(pl) > mtu {
-			c.Fail("C10/payloader/payload-exceeds-mtu", fmt.Sprintf("payload %d has %d bytes, MTU %d", k, len(pl), mtu), wit())
+		if len(pl) > mtuOf[k] {
+			c.Fail("C10/payloader/payload-exceeds-mtu", fmt.Sprintf("payload %d has %d bytes, MTU %d", k, len(pl), mtuOf[k]), wit())
 			return
 		}
 	}
+	mtu = baseMTU
 	units, err := ref.H264Depay(payloads)
 	if err != nil {
 		c.Fail("C10/payloader/not-rfc6184-shaped", "the payload stream violates RFC 6184 structure: "+err.Error(), wit())
@@ -270,7 +291,7 @@ func c10Pay(c *fw.Ctx, i int) {
 				c.Fail("C10/payloader/fu-a-single-fragment", "a unit was sent as one FU-A fragment", wit())
 				return
 			}
-			if len(expect[k]) <= mtu {
+			if len(expect[k]) <= mtuOf[u.First] {
 				c.Count("fu-a-used-although-unit-fits(not judged)", 1)
 			}
 		case "stap-a":
@@ -283,7 +304,7 @@ func c10Pay(c *fw.Ctx, i int) {
 		if stapA && (t == 7 || t == 8) && pairs[k-int(t-7)] {
 			// SPS at k (t==7) or PPS at k (t==8, pair starts at k-1)
 			start := k - int(t-7)
-			fits := 5+len(expect[start])+len(expect[start+1]) <= mtu
+			fits := 5+len(expect[start])+len(expect[start+1]) <= mtuOf[u.First] // the MTU of the call that sent them
 			if fits && u.Kind != "stap-a" {
 				c.Fail("C10/payloader/sps-pps-not-in-stap-a", "an SPS/PPS pair that fits one STAP-A was not aggregated", wit())
 				return
